@@ -42,6 +42,14 @@ Theorem C17_coi_members_reachable :
 Proof. exact coi_members_reachable_lemma. Qed.
 Print Assumptions C17_coi_members_reachable.
 
+(** The three cones are nested: comb within init within full (no assumption on the system). *)
+Theorem C17_coi_nested :
+  forall (sy : sys) (root : expr) (Cc Ci Cf : list expr),
+    coi_opt VComb sy root = Some Cc -> coi_opt VInit sy root = Some Ci -> coi_opt VFull sy root = Some Cf ->
+    (forall s, In s Cc -> In s Ci) /\ (forall s, In s Ci -> In s Cf).
+Proof. exact coi_nested_lemma. Qed.
+Print Assumptions C17_coi_nested.
+
 (** The key lemma: the value of an expression depends only on the symbols occurring in it. *)
 Theorem C17_eval_ext :
   forall (r1 r2 : env) (e : expr),
